@@ -16,7 +16,14 @@
     independent reader) that every starting image contains every catalogue element.  Whenever a request changes what
     checksums are computed from, or a quota file exists, the image is observed independently as well: the reader's
     recomputation of every checksum (no object class may be stale) and the quota files parsed by an own parser of the
-    quota tree, compared by TLC with Tune!RealUsage of the inode table."""
+    quota tree, compared by TLC with Tune!RealUsage of the inode table.
+(4) Sequences the specification lists one by one (Emit_Tune): Tune!FieldPairs -- for every multi-valued superblock field
+    (the 2-bit journalling mode of the default mount options, the error behaviour, the default hash) every ordered pair of
+    the requests that own it, so that every transition between its values is taken (MC_Tune: ASSUME FieldTransitionsTaken);
+    Tune!AllocSeqs -- the objects tune2fs puts into ORDINARY inodes (project quota file, orphan file) created and removed
+    again, run on the starting-image variant "<profile>+i11" of the catalogue (Tune!CatVariants: s_first_ino is free, so the
+    object occupies exactly the first ordinary inode) and on the plain images.  The abstract state carries the quota inode
+    numbers (Tune!QuotaIno: 3, 4, the lowest free inode >= s_first_ino) and the journalling mode as one field."""
 import os, sys, json, random, shutil, hashlib, struct, re, stat, itertools, time, concurrent.futures as cf
 from common import VERIF, fast_tmp, seed, die_broken, NPROC, tool_env
 from common import run as sh
@@ -112,10 +119,7 @@ def mntopt_names(v):
             continue
         if v & m:
             out.append(n)
-    if v & 0x20:
-        out.append("jd")          # the journalling mode is a two-bit field: data = jd, ordered = jo, writeback = jd + jo
-    if v & 0x40:
-        out.append("jo")
+    # the journalling mode (0x60) is a two-bit FIELD, not two options: abstract()["jmode"]
     rest = v & ~(0x1 | 0x2 | 0x4 | 0x8 | 0x10 | 0x60 | 0x100 | 0x200 | 0x400 | 0x800)
     if rest:
         out.append("mntopt_%x" % rest)
@@ -185,6 +189,9 @@ def abstract(b):
         "csumtype": b[0x175], "rev": min(u32(0x4C), 9), "lastorphan": 1 if u32(0xE8) else 0,
         "lastcheck": u32(0x40) % (2 ** 31), "mtime": u32(0x2C) % (2 ** 31), "jdev": 1 if (u32(0xE4) or b[0xD0:0xE0] != b"\0" * 16) else 0,
         "metagroups": 1 if (u32(0x60) & 0x10) else 0,
+        "jmode": (u32(0x100) & 0x60) >> 5,
+        "qinum": {"usr": min(u32(0x240), 2 ** 31 - 1), "grp": min(u32(0x244), 2 ** 31 - 1), "prj": min(u32(0x26C), 2 ** 31 - 1)},
+        "firstino": min(u32(0x54), 2 ** 31 - 1) if u32(0x4C) >= 1 else 11,
     }
 
 
@@ -206,9 +213,9 @@ def _has_super(g, feats, backup_bgs):
     return _test_root(g, 3) or _test_root(g, 5) or _test_root(g, 7) or g in (3, 5, 7)
 
 
-def packed_of(path, b):
-    """1 iff some group's block bitmap / inode bitmap / inode table lies outside the group's own block range (what
-    ext2fs_check_desc() rejects once flex_bg is cleared).  Own parser of the group descriptor table."""
+def group_descs(path, b):
+    """Own parser of the group descriptor table: yields (group, block bitmap, inode bitmap, inode table, bg_flags, first block of
+    the group, last block of the group, inode table blocks); stops at a short read."""
     u32 = lambda o: struct.unpack_from("<I", b, o)[0]
     u16 = lambda o: struct.unpack_from("<H", b, o)[0]
     feats = set(bits(u32(0x5C), COMPAT, "c") + bits(u32(0x60), INCOMPAT, "i") + bits(u32(0x64), ROCOMPAT, "r"))
@@ -219,7 +226,7 @@ def packed_of(path, b):
     isz = u16(0x58) if u32(0x4C) >= 1 else 128
     dsz = u16(0xFE) if is64 and u16(0xFE) >= 64 else 32
     if not bpg:
-        return 0
+        return
     gdc = (blocks - first + bpg - 1) // bpg
     dpb = bs // dsz
     itb = (ipg * isz + bs - 1) // bs
@@ -238,15 +245,64 @@ def packed_of(path, b):
             f.seek(loc * bs + (g % dpb) * dsz)
             d = f.read(dsz)
             if len(d) < dsz:
-                return 0
+                return
             bb, ib, it = struct.unpack_from("<III", d, 0)
+            flags = struct.unpack_from("<H", d, 0x12)[0]
             if dsz >= 64:
                 hb, hi, ht = struct.unpack_from("<III", d, 0x20)
                 bb |= hb << 32; ib |= hi << 32; it |= ht << 32
             lo = first + g * bpg
-            hi_ = min(lo + bpg, blocks) - 1
-            if not (lo <= bb <= hi_ and lo <= ib <= hi_ and lo <= it and it + itb - 1 <= hi_):
+            yield g, bb, ib, it, flags, lo, min(lo + bpg, blocks) - 1, itb
+
+
+def packed_of(path, b):
+    """1 iff some group's block bitmap / inode bitmap / inode table lies outside the group's own block range (what
+    ext2fs_check_desc() rejects once flex_bg is cleared)."""
+    for g, bb, ib, it, flags, lo, hi_, itb in group_descs(path, b):
+        if not (lo <= bb <= hi_ and lo <= ib <= hi_ and lo <= it and it + itb - 1 <= hi_):
+            return 1
+    return 0
+
+
+def ino_is_free(path, b, ino):
+    """1 iff inode `ino` is free according to the inode bitmap (own parser), 0 if in use, -1 if it does not exist"""
+    u32 = lambda o: struct.unpack_from("<I", b, o)[0]
+    bs = 1024 << u32(0x18)
+    ipg = u32(0x28)
+    gdcsum = bool(u32(0x64) & (0x10 | 0x400))
+    if ino < 1 or not ipg:
+        return -1
+    for g, bb, ib, it, flags, lo, hi_, itb in group_descs(path, b):
+        if g == (ino - 1) // ipg:
+            if gdcsum and (flags & 0x1):
                 return 1
+            k = (ino - 1) % ipg
+            with open(path, "rb") as f:
+                f.seek(ib * bs + k // 8)
+                c = f.read(1)
+            return 0 if c and (c[0] >> (k % 8)) & 1 else 1
+    return -1
+
+
+def lowest_free_ino(path, b):
+    """The lowest inode number >= s_first_ino whose bit in the inode bitmap is clear (0 = none): the inode ext2fs_new_inode()
+    hands out next.  Own parser: group descriptors, INODE_UNINIT (the whole group is free), the inode bitmap blocks."""
+    u32 = lambda o: struct.unpack_from("<I", b, o)[0]
+    bs = 1024 << u32(0x18)
+    ipg = u32(0x28)
+    first_ino = u32(0x54) if u32(0x4C) >= 1 else 11
+    gdcsum = bool(u32(0x64) & (0x10 | 0x400))
+    with open(path, "rb") as f:
+        for g, bb, ib, it, flags, lo, hi_, itb in group_descs(path, b):
+            if (g + 1) * ipg < first_ino:
+                continue
+            if gdcsum and (flags & 0x1):
+                return max(g * ipg + 1, first_ino)
+            f.seek(ib * bs)
+            bm = f.read((ipg + 7) // 8)
+            for k in range(max(0, first_ino - 1 - g * ipg), ipg):
+                if k // 8 >= len(bm) or not (bm[k // 8] >> (k % 8)) & 1:
+                    return min(g * ipg + k + 1, 2 ** 31 - 1)
     return 0
 
 
@@ -256,6 +312,7 @@ def abstract_img(path):
         return None, None
     a = abstract(b)
     a["packed"] = packed_of(path, b)
+    a["lowfree"] = lowest_free_ino(path, b)
     return b, a
 
 
@@ -275,7 +332,7 @@ def op_key(op):
     if k == "j":
         return "-j"
     if k == "E":
-        return "-E %s" % (op["a"] if op["a"].startswith(("test_fs", "^test_fs", "force_fsck")) or "=" in op["a"] else "%s=%d" % (op["a"], op["n"]))
+        return "-E %s" % (op["a"] if op["a"].startswith(("test_fs", "^test_fs", "force_fsck", "clear_mmp")) or "=" in op["a"] else "%s=%d" % (op["a"], op["n"]))
     raise ValueError(op)
 
 
@@ -292,7 +349,7 @@ def op_argv(op):
     if k == "j":
         return ["-j"]
     if k == "E":
-        return ["-E", op_key(op)[3:]]
+        return (["-f"] if op["a"] == "clear_mmp" else []) + ["-E", op_key(op)[3:]]      # tune2fs accepts clear_mmp only with -f
     raise ValueError(op)
 
 
@@ -592,7 +649,7 @@ def run_step(b, profile, op, img, work, prev_digest, tag, pristine=None):
     sb0, a0 = abstract_img(img)
     line = {"e": "tune", "profile": profile, "op": op, "cmd": op_key(op), "rc": -1, "asked_f": 0, "asked_d": 0, "before": a0, "after": a0,
             "mid": a0, "changed": [], "fsck_req_rc": -1, "fsck_after_rc": -1, "tree_equal": -1, "consistent": -1, "nontrivial": 0, "sig": 0,
-            "noop": 0, "obs": 0, "qobs": 0, "stale": [], "qfile": [], "inodes": [], "out": "", "fsck_out": ""}
+            "noop": 0, "prjino_was_free": -1, "obs": 0, "qobs": 0, "stale": [], "qfile": [], "inodes": [], "out": "", "fsck_out": ""}
     rc, out, err = sh([tune] + op_argv(op) + [img], env=env, timeout=300, input=b"")
     txt = (out + err).decode("utf8", "replace")
     line["sig"] = 1 if rc < 0 or rc > 120 else 0
@@ -616,6 +673,8 @@ def run_step(b, profile, op, img, work, prev_digest, tag, pristine=None):
         restore()
         return line, prev_digest
     line["mid"] = am
+    if am["qinum"]["prj"] and am["qinum"]["prj"] != a0["qinum"]["prj"]:
+        line["prjino_was_free"] = ino_is_free(keep, sb0, am["qinum"]["prj"])     # in the image BEFORE the request
     if line["asked_d"] or line["asked_f"]:
         r2, o2, e2 = sh([fsck, "-fyD" if line["asked_d"] else "-fy", img], env=env, timeout=300)
         line["fsck_req_rc"] = r2
@@ -656,7 +715,8 @@ def run_step(b, profile, op, img, work, prev_digest, tag, pristine=None):
 def run_sequence(args):
     """One behaviour: a starting profile and a list of requests applied one after another (a refused request leaves the image
     as it was and the sequence goes on with the next one)."""
-    b, basedir, profile, ops, work, idx, base_digest = args
+    b, basedir, profile, ops, work, idx, base_digest = args[:7]
+    tail_listed = len(args) > 7 and args[7]        # the sequence without its first request is in the universe on this image
     img = os.path.join(work, "s%d.img" % idx)
     shutil.copyfile(os.path.join(basedir, profile + ".img"), img)
     dg = base_digest
@@ -668,9 +728,9 @@ def run_sequence(args):
             lines.append(line)
             if line["rc"] == 0 and (line["consistent"] != 1 or line["tree_equal"] != 1):
                 break                      # nothing can be concluded about later steps from a broken image
-            if len(ops) == 2 and k == 0 and (line["rc"] != 0 or line.get("noop")):
+            if (len(ops) == 2 or tail_listed) and k == 0 and (line["rc"] != 0 or line.get("noop")):
                 line["pruned"] = 1
-                break                      # (refused or byte-identical no-op ; b) is the single request b, which is in the universe
+                break                      # (refused or byte-identical no-op ; rest) is the sequence `rest`, which is in the universe
     finally:
         for p in (img, img + ".pre"):
             if os.path.exists(p):
@@ -689,6 +749,9 @@ QUOTA_ENABLING = lambda op: ((op["k"] == "O" and ({"quota", "project"} & set(op[
 ORACLE_BLIND = {"inline": QUOTA_ENABLING}
 
 
+EXPLICIT = {"fieldpairs": [], "allocseqs": [], "extrapairs": []}      # sequences the specification lists one by one
+
+
 def load_universe(work):
     out = os.path.join(work, "universe.json")
     r = T.tlc(os.path.join(SPEC, "Emit_Tune.tla"), os.path.join(SPEC, "Emit_Tune.cfg"), workers=1, timeout=300, env={"OUT": out}, xmx="1g")
@@ -703,6 +766,13 @@ def load_universe(work):
     keys = [op_key(o) for o in allops]
     if len(set(keys)) != len(keys):
         die_broken("request catalogue has duplicate command lines")
+    global EXPLICIT
+    EXPLICIT = {k: sorted(([norm(o) for o in t] for t in u[k]), key=lambda t: [op_key(o) for o in t]) for k in ("fieldpairs", "allocseqs", "extrapairs")}
+    known = set(keys)
+    for k, sq in EXPLICIT.items():
+        for t in sq:
+            if any(op_key(o) not in known for o in t):
+                die_broken("Tune!%s names a request that is not in Tune!AllOps: %s" % (k, [op_key(o) for o in t]))
     return allops, structural, pair, triples, u["catalogue"]
 
 
@@ -712,7 +782,7 @@ def image_params(path):
     u32 = lambda o: struct.unpack_from("<I", sb, o)[0]
     feats = set(a["feats"])
     return {"bs": a["bs"], "csum": 1 if "metadata_csum" in feats else 0, "extent": 1 if "extent" in feats else 0,
-            "dir_index": 1 if "dir_index" in feats else 0, "isz": a["isz"],
+            "dir_index": 1 if "dir_index" in feats else 0, "isz": a["isz"], "prj": 1 if a["qinum"]["prj"] else 0,
             "cluster": (1024 << u32(0x1C)) if "bigalloc" in feats else a["bs"]}
 
 
@@ -723,7 +793,7 @@ def rich_universe(b, basedir, profiles, cat):
     badp = {p: i.get("why", "?") for p, i in info.items() if not i.get("ok")}
     if badp:
         die_broken("the catalogue content could not be added to the starting image(s): %s" % json.dumps(badp)[:1500])
-    return richdir, {p: info[p]["content"] for p in profiles}
+    return richdir, {p: info[p]["content"] for p in sorted(info)}
 
 
 def excluded(profile, ops):
@@ -731,9 +801,12 @@ def excluded(profile, ops):
     return bool(f and any(f(o) for o in ops))
 
 
-def sequences(tier, profiles, allops, structural_ops, pair, triples, rng):
+def sequences(tier, profiles, allops, structural_ops, pair, triples, rng, variants=(), params=None):
     """List of (profile, [ops]).  thorough = the whole universe; quick = every single request on every profile, every
-    ordering of the seeded triples on a seeded third of the profiles, and a seeded sample of ordered pairs."""
+    ordering of the seeded triples on a seeded third of the profiles, a seeded sample of ordered pairs, and the sequences the
+    specification lists one by one: Tune!FieldPairs (every transition of every multi-valued field) on one seeded profile,
+    Tune!AllocSeqs (objects created in / removed from ordinary inodes) on one seeded starting image of the variant in which
+    s_first_ino is free (thorough: every image of both variants), Tune!ExtraPairs on one seeded profile."""
     seqs = []
     structural = {op_key(o) for o in structural_ops}
     tun_profiles = set(rng.sample(sorted(profiles), 3)) if tier == "quick" else set(profiles)
@@ -758,7 +831,23 @@ def sequences(tier, profiles, allops, structural_ops, pair, triples, rng):
         tri = must + [x for x in tri if x not in must][:60]
         prs = prs[:120]
     seqs += tri + prs
-    return [s for s in seqs if not excluded(s[0], s[1])]
+    # ---- the sequences listed by the specification
+    rng2 = random.Random(rng.random())          # own stream: the samples above stay what they were
+    # a project quota file needs inodes larger than 128 bytes: sample where the family can act (thorough: everywhere)
+    # (quick: one image on which create ; remove acts -- no project quota yet; thorough: every image, both variants)
+    roomy = lambda ps: [p for p in sorted(ps) if not params or (params[p.split("+")[0]]["isz"] > 128 and not params[p.split("+")[0]]["prj"]
+                                                                and any(not excluded(p.split("+")[0], t) for t in EXPLICIT["allocseqs"] if any(QUOTA_ENABLING(o) for o in t)))]
+    if tier == "quick":
+        fp_profiles = rng2.sample(sorted(tun_profiles), 1)
+        ap_profiles = rng2.sample(roomy(variants), min(1, len(roomy(variants))))
+        xp_profiles = rng2.sample(sorted(profiles), 1)
+    else:
+        fp_profiles, ap_profiles, xp_profiles = sorted(profiles), sorted(variants) + sorted(profiles), sorted(profiles)
+    for plist, key in ((fp_profiles, "fieldpairs"), (ap_profiles, "allocseqs"), (xp_profiles, "extrapairs")):
+        for p in plist:
+            for t in EXPLICIT[key]:
+                seqs.append((p, list(t)))
+    return [s for s in seqs if not excluded(s[0].split("+")[0], s[1])]
 
 
 def _run_lines(args):
@@ -796,7 +885,7 @@ def validate_lines(lines, cfg, work, chunk=150, timeout=900, tag="l"):
 
 
 TRACE_KEYS = ("e", "profile", "op", "cmd", "rc", "asked_f", "asked_d", "before", "mid", "after", "changed", "fsck_req_rc", "fsck_after_rc",
-              "tree_equal", "consistent", "nontrivial", "seq", "step", "noop", "obs", "qobs", "stale", "qfile", "inodes")
+              "tree_equal", "consistent", "nontrivial", "seq", "step", "noop", "prjino_was_free", "obs", "qobs", "stale", "qfile", "inodes")
 
 
 def why_bad(l):
@@ -820,7 +909,7 @@ def why_bad(l):
 def model_check(tier, ev, vd, basedir, profiles, work, content):
     pf = os.path.join(work, "profiles.ndjson")
     with open(pf, "w") as f:
-        for p in profiles:
+        for p in sorted(content):
             sb, a = abstract_img(os.path.join(basedir, p + ".img"))
             f.write(json.dumps({"profile": p, "state": a, "content": content[p]}, sort_keys=True) + "\n")
     mod = os.path.join(SPEC, "MC_Tune.tla")
@@ -874,16 +963,20 @@ def run(tier):
         with cf.ThreadPoolExecutor(max_workers=2) as bg:
             mc = bg.submit(model_check, tier, ev, vd, basedir, profiles, work, content)
             rng = random.Random(seed())
-            seqs = sequences(tier, profiles, allops, structural, pair, triples, rng)
+            variants = sorted(set(content) - set(profiles))
+            params = {p: image_params(os.path.join(basedir, p + ".img")) for p in profiles}
+            seqs = sequences(tier, profiles, allops, structural, pair, triples, rng, variants, params)
             digs = {}
-            for p in profiles:
+            for p in sorted({q for q, _ in seqs}):
                 dg, n, err = tree_digest(b, os.path.join(basedir, p + ".img"), work, "base_" + p)
                 if err:
                     die_broken("tree digest of base image %s failed: %s" % (p, err))
                 digs[p] = dg
             t_run = time.time()
+            listed = {(p, tuple(op_key(o) for o in ops)) for p, ops in seqs}
             with cf.ThreadPoolExecutor(max_workers=JOBS) as ex:
-                res = list(ex.map(run_sequence, [(b, basedir, p, ops, work, i, digs[p]) for i, (p, ops) in enumerate(seqs)]))
+                res = list(ex.map(run_sequence, [(b, basedir, p, ops, work, i, digs[p], (p, tuple(op_key(o) for o in ops[1:])) in listed)
+                                                 for i, (p, ops) in enumerate(seqs)]))
             _t("tool runs", t_run)
             mc.result()
             _t("+ model", t_run)
@@ -949,9 +1042,12 @@ def run(tier):
         ev.cov["quota_files_compared_with_inode_table"] = sum(len(l["qfile"]) for l in lines if l["obs"] == 1 and l["qobs"] == 1)
         ev.cov["observations_unreadable"] = sorted({l["profile"] + "|" + l["cmd"] + ": " + l["obs_err"] for l in lines if l.get("obs_err")})[:20]
         ev.cov["starting_image_census"] = content
+        ev.cov["spec_listed_sequences"] = {k: len(v) for k, v in EXPLICIT.items()}
+        ev.cov["starting_image_variants"] = variants
         ev.cov["rule"] = ("universe = Tune!AllOps (%d requests) x %d populated base images enriched with Tune's boundary catalogue (UniverseOK decided by TLC), every ordering of Tune!TripleSeeds (%d sets), ordered pairs over "
-                          "Tune!PairOps (%d requests) (quick: structural requests on every profile, tunables on 3 seeded profiles, seeded sample of pairs and "
-                          "triples); a pair whose first request is refused or changes no byte of the image is the single second request; non-trivial"
+                          "Tune!PairOps (%d requests), Tune!FieldPairs (every transition of the journalling-mode / errors / hash fields), Tune!AllocSeqs on the starting images with s_first_ino free and in use, "
+                          "Tune!ExtraPairs (quick: structural requests on every profile, tunables on 3 seeded profiles, seeded sample of pairs and "
+                          "triples, FieldPairs on 1, AllocSeqs on 1 image with s_first_ino free, ExtraPairs on 1 seeded image); a pair whose first request is refused or changes no byte of the image is the single second request; non-trivial"
                           % (len(allops), len(profiles), len(triples), len(pair)) + " = accepted request that rewrote at least one "
                           "metadata object other than the superblock copies (image bytes differ outside them); distinct by (profile, request, "
                           "feature set before, uuid class, inode size)")
@@ -968,7 +1064,8 @@ def run(tier):
             "tree equality observer = scratch-built debugfs (rdump + ls -p + stat + ea_list digest); consistency observer = e2fsck -fn exit 0 (both isolated in one function each, to be swapped for reader/ext4read.py)",
             "requests that enable quota accounting on profile `inline` are not run: e2fsck does not count inline-data symlinks in quota usage (pass1.c), so the interim oracle rejects correct quota files there",
             "a refused request carries no obligation (DESIGN 8 rule 1); the image is restored and the sequence continues; refusals that the model does not predict are listed in coverage.model_divergences_on_acceptance",
-            "external journals (-J device=), mounted filesystems, -z undo files, -f, -E clear_mmp/encoding, multiple options in one invocation are outside the universe",
+            "external journals (-J device=), mounted filesystems, -z undo files, -f (except with -E clear_mmp, which needs it), -E encoding/mmp_update_interval, multiple options in one invocation are outside the universe",
+            "the project quota file is created in the lowest free inode >= s_first_ino (ext2fs_new_inode from the root directory's group); `lowfree` of the abstract state is observed by an own inode-bitmap parser and not predicted after a request",
             "the e2fsck run tune2fs asks for may put large_file back (data dependent) and assigns a UUID to a filesystem that has none and no metadata_csum (e2fsck/super.c PR_0_ADD_UUID; reached by `-U clear` followed by a request that asks for e2fsck); otherwise it may touch only state/lastcheck/mount count/free counts/journal backup fields",
         ]
         return vd.finish()
